@@ -439,6 +439,10 @@ class C20(Property):
         if all(self._on(f) for f in (F15, F21)) and tier != "search":
             for src in c20gen.deletion_matrix():
                 cases.append({"src": src, "muts": []})
+        # sets of files importing one another (analyzer-level description before/after format.File)
+        if tier != "search":
+            for _ in range(25 if tier == "quick" else 400):
+                cases.append(c20gen.multi_file_set(rng))
         # names and lexemes as inputs, enumerated (keyword-like identifiers in every identifier
         # position, every string/raw-string form in every literal position, route paths, @server
         # values, white-space and encoding variants of one program): all ~1150 tiny programs in the
@@ -497,14 +501,14 @@ class C20(Property):
             # a shrink candidate of a valid failing program that is no longer valid: not a
             # smaller instance of the same failure (it would drift to the parser-crash findings)
             obs["skipped"] = "shrink candidate no longer valid"
-            return "mkCase None None true [] [] [] (Some []) OOk OOk [] [] (Some []) true true true false []"
+            return "mkCase None None true [] [] [] (Some []) OOk OOk [] [] (Some []) true true true true false []"
         if case.get("expect_valid"):
             # deleting lines can glue two route lines into one path with adjacent identifiers
             # ("/a b", which goctl reads as "/ab"): outside the model's [wf], not a smaller instance
             cls, _ = c20gaps.classify(obs["toks"])
             if any(a == "P:id" and b2 == "P:id" for a, b2 in zip(cls, cls[1:])):
                 obs["skipped"] = "shrink candidate with adjacent identifiers in a path"
-                return "mkCase None None true [] [] [] (Some []) OOk OOk [] [] (Some []) true true true false []"
+                return "mkCase None None true [] [] [] (Some []) OOk OOk [] [] (Some []) true true true true false []"
         try:
             ast = r_api(obs["ast"])
         except Unrenderable as e:
@@ -529,13 +533,13 @@ class C20(Property):
         # the character-level tie costs Coq front-end time (long string literals): every source up
         # to SCAN_MAX characters, every formatted text up to SCAN_MAX/2
         cm_ok = all(clean(c[2]) == c[2] for c in obs["cmts"] + obs["fcmts"]) and "unrenderable_t" not in obs
-        return "mkCase %s %s %s %s %s %s %s %s %s %s %s %s %s %s %s %s %s" % (
+        return "mkCase %s %s %s %s %s %s %s %s %s %s %s %s %s %s %s %s %s %s" % (
             src_term(case["src"]) if cm_ok and len(case["src"]) <= SCAN_MAX else "None",
             src_term(obs["fmt1"]) if cm_ok and len(obs["fmt1"]) <= SCAN_MAX // 2 else "None",
             b(not obs.get("serr") and "unrenderable_t" not in obs), toks, r_cmts(obs["cmts"]),
             lst([b(c[0] >= 0 and c[3]) for c in obs["cmts"]]), ast, outc(obs["pout"]),
             outc(obs["fout"]), ftoks, r_cmts(obs["fcmts"]), fast, b(obs["idem"]), b(obs.get("file") == "same"),
-            b(obs.get("conc", "same") == "same"), b(os.environ.get("C20_STRICT") == "1"), lst([outc(m) for m in obs["muts"]]))
+            b(obs.get("conc", "same") == "same"), b(obs.get("multi", "same") == "same"), b(os.environ.get("C20_STRICT") == "1"), lst([outc(m) for m in obs["muts"]]))
 
     # ---- classification ---------------------------------------------------------
     def known(self, case, obs):
@@ -592,7 +596,8 @@ class C20(Property):
         if obs["pout"] != "ok":
             return obs["pout"] == "err" and obs["fout"] == "err"
         return obs["fout"] == "ok" and obs["idem"] and c20_norm(obs["ast"]) == obs["fast"] \
-            and obs.get("file", "same") == "same" and obs.get("conc", "same") == "same"
+            and obs.get("file", "same") == "same" and obs.get("conc", "same") == "same" \
+            and obs.get("multi", "same") == "same"
 
     def _variants(self, case, obs, kids):
         """Candidate explanations of a failing valid program: (ids, repaired source).
@@ -747,6 +752,8 @@ class C20(Property):
             return "format.Source is not a function of its input when called concurrently: %s" % obs["conc"]
         if obs.get("file", "same") != "same":
             return "format.File: %s" % obs["file"]
+        if obs.get("multi", "same") != "same":
+            return "set of files importing one another: %s" % obs["multi"]
         if obs["pout"] == "ok" and obs["fout"] != "ok":
             return "format.Source rejected a source the parser accepts: %s" % obs.get("ferr")
         if obs["pout"] == "ok" and c20_norm(obs["ast"]) != obs["fast"]:
